@@ -16,6 +16,7 @@ type Obs struct {
 	Scheme, Query, Fragment                                                                  string
 	V4, V6, Opaque, Special                                                                  bool
 	DPort                                                                                    int
+	VE                                                                                       string // digest of the recorded validation errors; filled by worldsim only, not part of Key (a re-parsed twin legitimately differs)
 }
 
 func observe(u *url.Url) Obs {
@@ -27,6 +28,24 @@ func observe(u *url.Url) Obs {
 		V4: u.IsIPv4(), V6: u.IsIPv6(), Opaque: u.OpaquePath(), Special: u.IsSpecialScheme(),
 		DPort: u.DecodedPort(),
 	}
+}
+
+// veDigest renders what ValidationErrors() reports (count and every entry's text). It uses
+// Error(), i.e. fmt, and therefore must never run on a schedsim task goroutine.
+func veDigest(u *url.Url) string {
+	ve := u.ValidationErrors()
+	if len(ve) == 0 {
+		return ""
+	}
+	var sb strings.Builder
+	sb.WriteString(strconv.Itoa(len(ve)))
+	for _, e := range ve {
+		sb.WriteByte('|')
+		if e != nil {
+			sb.WriteString(e.Error())
+		}
+	}
+	return sb.String()
 }
 
 // Primary returns the ten WHATWG API getters (the part C03/C05/C13 compare).
